@@ -720,6 +720,29 @@ func debugStackSymboliser(p *pkgInfo) string {
 	return "unknown"
 }
 
+// debugStackSkipsUnnamed: DebugStack guards the printing of a frame with
+// `<frame>.Function != ""`.
+func debugStackSkipsUnnamed(p *pkgInfo) bool {
+	fi, ok := p.methods["definedError"]["DebugStack"]
+	if !ok || fi.decl.Body == nil {
+		return false
+	}
+	found := false
+	ast.Inspect(fi.decl.Body, func(n ast.Node) bool {
+		if ifs, ok := n.(*ast.IfStmt); ok {
+			if be, ok := ifs.Cond.(*ast.BinaryExpr); ok && be.Op == token.NEQ {
+				if sel, ok := be.X.(*ast.SelectorExpr); ok && sel.Sel.Name == "Function" {
+					if lit, ok := be.Y.(*ast.BasicLit); ok && lit.Value == `""` {
+						found = true
+					}
+				}
+			}
+		}
+		return true
+	})
+	return found
+}
+
 var ctors = []string{"New", "Errorf", "Wrap", "Wrapf", "Join", "Recover"}
 
 func genChain(p *pkgInfo) string {
@@ -801,5 +824,7 @@ func genChain(p *pkgInfo) string {
 	fmt.Fprintf(&b, "Definition newError_shape_ok : bool := %s.\n\n", coqBool(skipIdx >= 0))
 	b.WriteString("(* which runtime symboliser DebugStack uses: \"runtime.FuncForPC\" (raw pc, FileLine(pc)),\n   \"runtime.CallersFrames\" (the one Frames() uses) or \"unknown\" *)\n")
 	fmt.Fprintf(&b, "Definition debugstack_symboliser : string := %s.\n", coqStr(debugStackSymboliser(p)))
+	b.WriteString("(* DebugStack prints a frame only `if frame.Function != \"\"` *)\n")
+	fmt.Fprintf(&b, "Definition debugstack_skips_unnamed : bool := %s.\n", coqBool(debugStackSkipsUnnamed(p)))
 	return b.String()
 }
